@@ -459,6 +459,10 @@ impl LyNative for ListRemove {
       return self.call_error(hooks, format!("Cannot remove at negative index {index}."));
     }
 
+    if index.fract() != 0.0 || index.is_nan() {
+      return self.call_error(hooks, format!("Cannot remove at non integer index {index}."));
+    }
+
     if list.has_moved() {
       hooks.scan_roots();
     }
@@ -502,6 +506,10 @@ impl LyNative for ListInsert {
 
     if index < 0.0 {
       return self.call_error(hooks, format!("Cannot insert at index {index}"));
+    }
+
+    if index.fract() != 0.0 || index.is_nan() {
+      return self.call_error(hooks, format!("Cannot insert at non integer index {index}"));
     }
 
     let result = list.insert(index as usize, args[2], &hooks.as_gc());
@@ -632,6 +640,10 @@ impl LyNative for ListSort {
     });
 
     hooks.pop_roots(1);
+
+    if let Some(failure) = failure {
+      return failure;
+    }
 
     Call::Ok(val!(list))
   }
